@@ -14,7 +14,7 @@ from vv.core import Result, exc_violation, innermost_is_harness
 from vv.util import deq, getp, put, tree_leaves
 
 ID = 'C16'
-CASES = {'quick': 200, 'thorough': 3000}
+CASES = {'quick': 400, 'thorough': 30000}
 RULE = ('Hypothesis draws 1..3 composer descriptions (1..3 processes with '
         'different timesteps and state-dependent deterministic updates, 0..3 '
         'steps with a drawn flow, topology inside the compartment), an '
@@ -54,7 +54,11 @@ def part(draw, tag):
         steps.append({'name': '%ss%d' % (tag, i), 'deps': deps,
                       'salt': draw(st.integers(1, 9))})
     return {'procs': procs, 'steps': steps,
-            'state': {'shared': {'sum': draw(st.integers(0, 20))}}}
+            'state': {'shared': {'sum': draw(st.integers(0, 20))}},
+            # the source composite is itself generated at this path, so its
+            # processes/steps/flow/topology/state are nested dictionaries
+            'own_path': draw(st.sampled_from([[], [], ['x'], ['x', 'y'],
+                                              ['z']]))}
 
 
 @st.composite
@@ -88,17 +92,19 @@ def strategy(tier):
 
 # ------------------------------------------------------------------ helpers
 
-def describe(x):
+def describe(x, depth=0):
     """Structure with processes replaced by (class, name, parameters)."""
     from vivarium.core.process import Process
+    if depth > 12:
+        return '<deeper than 12: cyclic?>'
     if isinstance(x, Process):
         params = {k: v for k, v in x.parameters.items() if k != 'run_id'}
         return ('process', type(x).__name__, x.name, repr(sorted(
             params.items(), key=lambda kv: kv[0])))
     if isinstance(x, dict):
-        return {k: describe(v) for k, v in x.items()}
+        return {k: describe(v, depth + 1) for k, v in x.items()}
     if isinstance(x, (list, tuple)):
-        return [describe(v) for v in x]
+        return [describe(v, depth + 1) for v in x]
     return x
 
 
@@ -108,29 +114,38 @@ def nest(path, d):
     return d
 
 
-def same(a, b):
-    """Deep equality, process objects by identity."""
+def same(a, b, depth=0):
+    """Deep equality, process objects by identity (depth-bounded: a broken
+    merge can build cyclic dictionaries)."""
     from vivarium.core.process import Process
+    if depth > 12:
+        return False
     if isinstance(a, Process) or isinstance(b, Process):
         return a is b
     if isinstance(a, dict) and isinstance(b, dict):
-        return set(a) == set(b) and all(same(a[k], b[k]) for k in a)
+        return set(a) == set(b) and all(
+            same(a[k], b[k], depth + 1) for k in a)
     if isinstance(a, (list, tuple)) and isinstance(b, (list, tuple)):
-        return len(a) == len(b) and all(same(x, y) for x, y in zip(a, b))
+        return len(a) == len(b) and all(
+            same(x, y, depth + 1) for x, y in zip(a, b))
     return a == b
 
 
-def snapshot(x):
+def snapshot(x, depth=0):
     """Copy of the containers, leaves (processes, tuples) by reference."""
+    if depth > 12:
+        return x
     if isinstance(x, dict):
-        return {k: snapshot(v) for k, v in x.items()}
+        return {k: snapshot(v, depth + 1) for k, v in x.items()}
     if isinstance(x, list):
-        return [snapshot(v) for v in x]
+        return [snapshot(v, depth + 1) for v in x]
     return x
 
 
 def dict_ids(x, out=None):
     out = out if out is not None else set()
+    if id(x) in out:
+        return out
     if isinstance(x, dict):
         out.add(id(x))
         for v in x.values():
@@ -142,12 +157,14 @@ def dict_ids(x, out=None):
     return out
 
 
-def union(a, b):
+def union(a, b, depth=0):
     """Reference deep union, later (b) wins on equal keys."""
     out = snapshot(a)
+    if depth > 12:
+        return out
     for k, v in b.items():
         if k in out and isinstance(out[k], dict) and isinstance(v, dict):
-            out[k] = union(out[k], v)
+            out[k] = union(out[k], v, depth + 1)
         else:
             out[k] = snapshot(v)
     return out
@@ -165,8 +182,14 @@ def run_engine(engine, calls):
     return [r['data'] for r in engine.emitter.rows if r.get('table') == 'history']
 
 
-def make_composite(desc, run_id):
+def make_composite(desc, run_id, nested=False):
     from vivarium.core.composer import Composite
+    own = tuple(desc.get('own_path') or ()) if nested else ()
+    if own:
+        comp = kit.SpecComposer({'desc': desc, 'run_id': run_id}).generate(
+            path=own)
+        comp['state'] = nest(list(own), copy.deepcopy(desc['state']))
+        return comp
     p, s, f, t = kit.make_part(desc, run_id)
     return Composite({'processes': p, 'steps': s, 'flow': f, 'topology': t,
                       'state': copy.deepcopy(desc['state'])})
@@ -223,7 +246,7 @@ def prune(tree):
 
 def check_merges(spec, res, ctx):
     from vivarium.core.composer import Composite
-    sources = [make_composite(d, 0) for d in spec['parts']]
+    sources = [make_composite(d, 0, nested=True) for d in spec['parts']]
     target = Composite({})
     expected = {k: {} for k in KEYS}
     merged_in = []       # (composite, snapshot)
